@@ -68,11 +68,24 @@ def coords_rejected(w, h, d, bc, x, y, z):
         and raises(lambda: g.get_cell_env((x, y, z))) and raises(lambda: g.are_neighbors((x, y, z), 0)) and raises(lambda: g.get_neighbors((x, y, z)))
 
 
+_KS = {}
+
+
 def neighbor_relation(w, h, d, bc, i, j):
     g = grid(w, h, d, bc)
     a, b = g.are_neighbors(i, j), g.are_neighbors(j, i)
     s = spec_neighbors(w, h, d, bc, i, j)
-    return a == b and a == s
+    if not (a == b and a == s):
+        return False
+    # the kinetics functions use the same relation: a diffusion rate between two distinct cells exists exactly when they are neighbours
+    if i != j:
+        from strengths import kinetics
+        key = (w, h, d, bc)
+        if key not in _KS:
+            _KS[key] = RDSystem(RDNetwork(species=[Species("A", D=1.5, density=1)], reactions=[]), g)
+        if raises(lambda: kinetics.compute_diffusion_rates(_KS[key], "A", i, j)) != (not s):
+            return False
+    return True
 
 
 def neighbor_query(w, h, d, bc, i):
@@ -106,6 +119,12 @@ def graph_adjacency(w, h, d, bc, i, j):
     if gr.are_neighbors(i, j) != s or gr.are_neighbors(j, i) != s:
         return False
     if (j in gr.get_neighbors(i)) != s or (i in gr.get_neighbors(j)) != s:
+        return False
+    from strengths import kinetics
+    key = ("gsys", w, h, d, bc)
+    if key not in _GG:
+        _GG[key] = RDSystem(RDNetwork(species=[Species("A", D=1.5, density=1)], reactions=[]), gr)
+    if raises(lambda: kinetics.compute_diffusion_rates(_GG[key], "A", i, j)) != (not s):
         return False
     if s:
         if e1 is not e2 and {e1.i, e1.j} != {e2.i, e2.j}:
